@@ -156,7 +156,7 @@ class VTimer:
         self.function = function
         self.args = args if args is not None else []
         self.kwargs = kwargs if kwargs is not None else {}
-        self.started = self.cancelled = self.fired = False
+        self.started = self.cancelled = self.fired = self.expired = False
         self.daemon = True
         self.tag = env.tag          # the request in whose context the timer was created (None: not a request)
         env.timers.append(self)
@@ -170,7 +170,7 @@ class VTimer:
         self.cancelled = True
 
     def live(self):
-        return self.started and not self.cancelled and not self.fired
+        return self.started and not self.cancelled and not self.fired and not self.expired
 
     def is_alive(self):
         return self.live()
@@ -229,6 +229,28 @@ def _install(env):
 
 
 SEND, FIRE, RX, CLOSE, ERROR, OPEN = 'send', 'fire', 'rx', 'close', 'error', 'open'
+# EXPIRE: a timer's interval elapses and its thread is about to call the function (from now on cancel() has no effect, as with
+# threading.Timer) but the call is delayed, e.g. behind another sender holding the send lock; RUN: the delayed call happens
+EXPIRE, RUN = 'expire', 'run'
+
+
+class CheckedLock:
+    """threading.Lock for a single-threaded history: acquiring a held lock can never succeed."""
+    def __init__(self):
+        self.held = False
+
+    def acquire(self, blocking=True, timeout=-1):
+        assert not self.held, 'send lock was left held: this and every later send_packet / close_link blocks for ever'
+        self.held = True
+        return True
+
+    def release(self):
+        if not self.held:
+            raise RuntimeError('release unlocked lock')
+        self.held = False
+
+    def locked(self):
+        return self.held
 
 # concrete requests for the session-centred harnesses: same port/channel, nested expected replies
 CONCRETE = [(2, 1, (1,)), (2, 1, (1, 7)), (2, 1, (1, 7, 9))]
@@ -258,6 +280,7 @@ def h_history(sym):
                          pending=False, answered=False, tx=0))
     sym.apply_known()
     cf = CF()
+    cf._send_lock = CheckedLock()
     st = dict(cur=None, nsess=0, nrx=0, nfire=0, closing=None)
 
     # ---- observation helpers (oracle side)
@@ -284,7 +307,8 @@ def h_history(sym):
         return None
 
     def live_of(r):
-        return [t for t in env.timers if t.live() and t.tag is r]
+        # an expired timer whose (delayed) callback has not run yet still stands for the request: the callback will retransmit
+        return [t for t in env.timers if (t.live() or (t.expired and not t.fired and not t.cancelled)) and t.tag is r]
 
     def invariant(where):
         for r in reqs:
@@ -458,6 +482,13 @@ def h_history(sym):
             for t in env.timers:
                 if t.live():
                     menu.append((FIRE, t))
+        if EXPIRE in kinds:
+            if not st.get('inflight'):
+                for t in env.timers:
+                    if t.live():
+                        menu.append((EXPIRE, t))
+            else:
+                menu.append((RUN, st['inflight']))
         if st['cur'] is not None:
             if RX in kinds and st['nrx'] < B.get('max_rx', NEV) and (any(r['pending'] for r in reqs) or B.get('rx_idle', False)):
                 menu.append((RX, None))
@@ -476,6 +507,14 @@ def h_history(sym):
         elif kind == FIRE:
             st['nfire'] += 1
             do_fire(arg, ('event', k))
+        elif kind == EXPIRE:
+            arg.expired = True               # the timer thread is past the point where cancel() could stop it
+            st['inflight'] = arg
+        elif kind == RUN:
+            st['inflight'] = None
+            if arg.cancelled:
+                sym.goal('delayed-callback-after-cancel')
+            do_fire(arg, ('event', k))
         elif kind == RX:
             st['nrx'] += 1
             do_rx(k)
@@ -489,6 +528,11 @@ def h_history(sym):
             do_close(kind)
         invariant(('event', k, kind))
     # ---- epilogue: a legal continuation of the history, decided by the same oracle
+    if st.get('inflight') is not None:          # a delayed timer callback eventually runs
+        t, st['inflight'] = st['inflight'], None
+        do_fire(t, 'epilogue-delayed')
+        invariant('epilogue-delayed')
+    assert not cf._send_lock.held, 'send lock left held at the end of the history'
     if B.get('epilogue', True):
         if st['cur'] is None and any(t.live() for t in env.timers):
             do_open()
@@ -502,11 +546,19 @@ def h_history(sym):
 
 
 ALL = (SEND, FIRE, RX, CLOSE, ERROR, OPEN)
+DELAYED = [
+    Harness('delayed-callback', h_history,
+            quick=dict(p=2, concrete=True, events=5, kinds=(SEND, EXPIRE, RX, CLOSE), nr=True, sessions=1, max_rx=2),
+            thorough=dict(p=2, concrete=True, events=6, kinds=(SEND, EXPIRE, FIRE, RX, CLOSE, ERROR, OPEN), nr=True, sessions=2, max_rx=2),
+            goals=('delayed-callback-after-cancel',), timeout=(600, 1800),
+            note='a retry timer whose callback is delayed past the arrival of the answer / the close (the window in which '
+                 'threading.Timer.cancel() comes too late): no retransmission, and the send lock is released'),
+]
 _MATCH_GOALS = ('answered', 'retransmitted', 'non-matching-packet')
 _SESSION_GOALS = ('reopened', 'retransmitted', 'answered', 'no-timer-on-reliable-link', 'link-down-with-pending-request',
                   'reopened-after-pending-request-dropped')
 
-HARNESSES = [
+HARNESSES = DELAYED + [
     # concern 1: matching. Symbolic expected bytes (shared prefixes arise), symbolic received header + 3 bytes, header of
     # request 1 equal to / different from request 0 by solver choice; one resending session; one harness per pair of lengths
     Harness(f'match[{a},{b}]', h_history,
